@@ -196,6 +196,33 @@ func (a *Activation) enterLoop(st *State, li *loopInfo) {
 			st.cells[k] = Val{T: nv}
 		}
 	}
+	// cells of non-escaping locals of this function that the loop never stores to keep
+	// their values across the loop (no callee can reach them either)
+	var keepLocs []protectedLoc
+	var keepVals []Term
+	{
+		written := map[*ssa.Alloc]bool{}
+		for b := range li.blocks {
+			for _, ins := range b.Instrs {
+				if stIns, ok := ins.(*ssa.Store); ok {
+					if al := baseAlloc(stIns.Addr); al != nil {
+						written[al] = true
+					}
+				}
+			}
+		}
+		for _, pl := range g.localProt {
+			if pl.alloc != nil && pl.alloc.Parent() == a.fn && !written[pl.alloc] {
+				keepLocs = append(keepLocs, pl)
+				keepVals = append(keepVals, g.define("lk", g.load(st, pl.loc, pl.ty)))
+			}
+		}
+	}
+	restoreKept := func() {
+		for i, pl := range keepLocs {
+			g.store(st, pl.loc, pl.ty, keepVals[i])
+		}
+	}
 	if all {
 		g.havocAllHeaps(st)
 		for k, v := range st.ghosts {
@@ -235,6 +262,7 @@ func (a *Activation) enterLoop(st *State, li *loopInfo) {
 			g.havocHeap(st, s)
 		}
 	}
+	restoreKept()
 	nc := g.fresh("ctr", "Int")
 	g.assertLine(app(SBool, ">=", nc, st.ctr), nc)
 	st.ctr = nc
